@@ -6,6 +6,16 @@ use std::collections::BTreeMap;
 use std::io::{Read, Seek, SeekFrom};
 use std::panic::{catch_unwind, AssertUnwindSafe};
 
+// ---------------------------------------------------------------- tiny mode (Miri / valgrind shards)
+static TINY: std::sync::atomic::AtomicBool = std::sync::atomic::AtomicBool::new(false);
+pub fn set_tiny(v: bool) {
+    TINY.store(v, std::sync::atomic::Ordering::Relaxed);
+}
+/// Workloads shrink by 3-4 orders of magnitude: interpreters are 10^3-10^4 x slower.
+pub fn tiny() -> bool {
+    TINY.load(std::sync::atomic::Ordering::Relaxed)
+}
+
 // ---------------------------------------------------------------- PRNG
 #[derive(Clone)]
 pub struct Rng(pub u64);
